@@ -68,14 +68,17 @@ def cases(draw):
     if c["all"]:
         n = draw(st.integers(0, 7))
         accts = []
+        # one bank id and one broker id per response, spelled as the server spells them (case matters)
+        disc_bankid = draw(st.sampled_from(["987654321", "NWBKGB2L", "Abc-123", "021000021"]))
+        disc_brokerid = draw(st.sampled_from(["disc.broker.com", "Brokerage.Example.COM", "4705", "dI.Sc"]))
         for i in range(n):
             kind = draw(st.sampled_from(["bank", "bank", "cc", "inv", "bp"]))
             a = {"kind": kind, "acctid": draw(ACCT), "status": draw(st.sampled_from(["ACTIVE", "ACTIVE", "AVAIL", "PEND"])), "group": draw(st.integers(0, 3)) * 10 + {"bank": 0, "cc": 1, "inv": 2, "bp": 3}[kind]}
             if kind in ("bank", "bp"):
-                a["bankid"] = "987654321"
+                a["bankid"] = disc_bankid
                 a["accttype"] = draw(st.sampled_from(["CHECKING", "SAVINGS", "MONEYMRKT", "CREDITLINE", "CD"]))
             if kind == "inv":
-                a["brokerid"] = "disc.broker.com"
+                a["brokerid"] = disc_brokerid
             accts.append(a)
         # at most one *ACCTINFO of a service per ACCTINFO wrapper: group ids are made unique per (group, kind) above;
         # duplicates within the same (group) key get their own wrapper
